@@ -47,6 +47,7 @@ fn main() {
             "C10chain" => chaincheck::run("C10", &tier, seed),
             "C11chain" => chaincheck::run("C11", &tier, seed),
             "C19chain" => chaincheck::run("C19", &tier, seed),
+            "C17chain" => chaincheck::run("C17", &tier, seed),
             _ => checks::run(&args[2], &tier, seed),
         },
         "show" => checks::show(&args[2], &tier, seed),
